@@ -8,13 +8,14 @@ RT_RULE = ("each run draws stream parameters, encoder options, signal family, le
 
 PLAN = {
     "C01": dict(level="exploration", rule=RT_RULE,
-                quick=[("rt", "release", 40000), ("rt", "checked", 10000)],
-                thorough=[("rt", "release", 1500000), ("rt", "checked", 300000)],
+                quick=[("rt", "release", 40000), ("rt", "checked", 10000), ("rtsweep", "release", 300)],
+                thorough=[("rt", "release", 1500000), ("rt", "checked", 300000), ("rtsweep", "release", 20000), ("rtsweep", "checked", 4000)],
+                exhaustive_subspaces=["rtsweep: every stream length 1..=70 for each drawn (block 16/32, LPC order, signal family, channels, depth, partition order) cell"],
                 assumptions=["input/option space is sampled by the seeded workload, not enumerated",
                              "PcmModel (harness) is the single-copy log"]),
     "C02": dict(level="exploration", rule=RT_RULE + "; the judge is refflac only; scenario rawrt does the same for raw frame streams of the stream writer",
-                quick=[("rt", "release", 40000), ("rawrt", "release", 10000)],
-                thorough=[("rt", "release", 1500000), ("rt", "checked", 200000), ("rawrt", "release", 400000)],
+                quick=[("rt", "release", 40000), ("rawrt", "release", 10000), ("rtsweep", "release", 300)],
+                thorough=[("rt", "release", 1500000), ("rt", "checked", 200000), ("rawrt", "release", 400000), ("rtsweep", "release", 20000)],
                 assumptions=["refflac (written from RFC 9639, shares no code with the crate) is correct"]),
     "C09": dict(level="exploration", rule=RT_RULE + "; scenario c09big = 932100 frames with a seek point requested per frame (more than a table can hold)",
                 quick=[("rt", "release", 40000), ("c09big", "release", 1)],
